@@ -51,6 +51,10 @@ func c04Alphabet() []c04op {
 				c04op{n("T_A"), refcodec.TemplateMsg(h, refcodec.Template{ID: id, Fields: tA})},
 				c04op{n("T_Ax"), refcodec.TemplateMsg(h, refcodec.Template{ID: id, Fields: tAx})},
 				c04op{n("T_B"), refcodec.TemplateMsg(h, refcodec.Template{ID: id, Fields: tB})},
+				// A's ids and widths under the reverse-information-element enterprise number
+				c04op{n("T_Arev"), refcodec.TemplateMsg(h, refcodec.Template{ID: id, Fields: []refcodec.FieldSpec{{ID: 7, PEN: 29305, Len: 2}, {ID: 11, PEN: 29305, Len: 2}, {ID: 4, PEN: 29305, Len: 1}}})},
+				// a known variable-length element announced with a fixed width of 4 (the library decodes at the registry width)
+				c04op{n("T_announced"), refcodec.TemplateMsg(h, refcodec.Template{ID: id, Fields: []refcodec.FieldSpec{{ID: 82, Len: 4}, {ID: 4, Len: 1}}})},
 				c04op{n("T_C"), refcodec.TemplateMsg(h, refcodec.Template{ID: id, Fields: tC})},
 				// unknown IANA element 999: refused in strict mode (a valid template in lenient modes)
 				c04op{n("Bad_unknown"), refcodec.TemplateMsg(h, refcodec.Template{ID: id, Fields: []refcodec.FieldSpec{{ID: 7, Len: 2}, {ID: 999, Len: 3}}})},
@@ -125,7 +129,7 @@ func (s *c04sys) Apply(op int) (v *xplore.Violation) {
 	}
 	// store comparison
 	ic, doms := colcheck.ImplCanon(s.cp.VerifTemplates())
-	if mc := s.model.Canon(); ic != mc {
+	if mc := s.model.Canon(); ic != mc && ic != s.model.CanonReading(true) {
 		return xplore.V("store-mismatch", "after %s the template table is %s, model has %s", o.name, ic, mc)
 	}
 	if fmt.Sprint(doms) != fmt.Sprint(s.model.Domains()) {
@@ -235,7 +239,7 @@ func runC04(tier, replay string) int {
 	cov["samples"] = samples
 	cov["evaluations"] = traces
 	cov["distinct_nontrivial"] = interesting
-	cov["rule"] = "pass (a): every history of the 44-message alphabet (2 domains x 2 ids x {4 valid templates incl. one that extends another, 4 bad templates, 3 data bodies}) up to hist_depth, replayed on a fresh collector in lock-step with the tmplstore/refcodec model; pass (b): BFS de-duplicated on the collector's template-table snapshot until the graph closes. distinct_nontrivial = distinct reachable template tables with at least one template"
+	cov["rule"] = "pass (a): every history of the 52-message alphabet (2 domains x 2 ids x {6 valid templates incl. one that extends another, one that differs only in enterprise number and one announcing a non-registry width, 4 bad templates, 3 data bodies}) up to hist_depth, replayed on a fresh collector in lock-step with the tmplstore/refcodec model; pass (b): BFS de-duplicated on the collector's template-table snapshot until the graph closes. distinct_nontrivial = distinct reachable template tables with at least one template"
 	cov["exhaustive"] = exhaustive && closedAll
 	cov["closed"] = closedAll
 	cov["per_config"] = perCfg
